@@ -154,7 +154,7 @@ c_ = c_class()
 
 # ----- misc -----
 @primitive
-def make_diagonal(D, offset=0, axis1=0, axis2=1):
+def make_diagonal(D, offset=0, axis1=0, axis2=1, shape=None):
     # Numpy doesn't offer a complement to np.diagonal: a function to create new
     # diagonal arrays with extra dimensions. We need such a function for the
     # gradient of np.diagonal and it's also quite handy to have. So here it is.
@@ -163,7 +163,11 @@ def make_diagonal(D, offset=0, axis1=0, axis2=1):
 
     # We use a trick: calling np.diagonal returns a view on the original array,
     # so we can modify it in-place. (only valid for numpy version >= 1.10.)
-    new_array = _np.zeros(D.shape + (D.shape[-1],))
+    # `shape` is the shape of the array to build (its last two axes need not be
+    # square); by default they are square.
+    if shape is None:
+        shape = D.shape + (D.shape[-1],)
+    new_array = _np.zeros(shape)
     new_array_diag = _np.diagonal(new_array, offset=0, axis1=-1, axis2=-2)
     new_array_diag.flags.writeable = True
     new_array_diag[:] = D
